@@ -5,6 +5,7 @@ package apigen
 import (
 	"fmt"
 	"sort"
+	"strings"
 
 	"pgregory.net/rapid"
 
@@ -238,6 +239,9 @@ func genFrag(t *rapid.T, env fragEnv) fragR {
 			fr.Tracks = append(fr.Tracks, id)
 		}
 		fr.Mode = rapid.SampledFrom([]string{"fullTrack", "fullTrack", "metaTrack"}).Draw(t, "mode")
+	}
+	if strings.HasPrefix(fr.Mode, "meta") && fr.Ctor != "manual" && !encrypt && pct(t, 40, "metaDataAdd") {
+		fr.MetaData = "add"
 	}
 	nalu := ""
 	if encrypt {
